@@ -84,7 +84,8 @@ def build(idx, sym, spec, m=None, top=True):
         for i, r in enumerate(spec['replacements']):
             rr = dict(r)
             for key in ('start', 'end'):
-                if r[key] == '?':
+                if r[key] == 'S': rr['_' + key] = rr['_start']
+                elif r[key] == '?':
                     v = z3.BitVec('r%d_%s_%d' % (sym.n, key, i), 32); sym.n += 1
                     sym.st.pc.append(z3.ULE(v, n + 1))
                     rr['_' + key] = v
